@@ -42,14 +42,18 @@ pub struct Reject {
     /// to reject; false = malformed per the specification text but outside
     /// the statement's list ("gray": either verdict accepted)
     pub hard: bool,
+    /// overrun of an *inner* section whose bytes are all present (cannot be
+    /// cured by more input)
+    #[serde(default)]
+    pub intrinsic: bool,
 }
 
 impl Reject {
     pub fn hard(class: Rej) -> Self {
-        Reject { class, hard: true }
+        Reject { class, hard: true, intrinsic: false }
     }
     pub fn soft(class: Rej) -> Self {
-        Reject { class, hard: false }
+        Reject { class, hard: false, intrinsic: false }
     }
 }
 
